@@ -782,6 +782,8 @@ func (e *Exec) binop(op token.Token, a, b Value, ta, tb types.Type) Value {
 			if sb.isConc() && sb.conc == "" {
 				return sa
 			}
+			// concatenation with an arbitrary string: formatting, never the subject of a property
+			return opaqueStr(e, "concat")
 		}
 		panic(unsupported("string operation " + op.String() + " on atom"))
 	}
@@ -976,6 +978,16 @@ func (e *Exec) convert(v Value, from, to types.Type) Value {
 				for i, r := range rs {
 					sl.arr.elems[i].v = K(int64(r))
 				}
+				return sl
+			}
+			if s.atom != nil {
+				// bytes of an arbitrary (formatted) string: opaque, one symbolic byte
+				e.sh.addNote("abstraction: []byte of an opaque formatted string is one opaque byte")
+				sl := e.newSlice(t.Elem(), 1, 1)
+				b := e.freshVar("opqbyte", SInt)
+				e.assertPC(Le(K(0), b))
+				e.assertPC(Lt(b, K(256)))
+				sl.arr.elems[0].v = b
 				return sl
 			}
 			bs := e.toBytes(s)
